@@ -35,6 +35,11 @@ func (C12) Explore(x *kernel.Explorer, seed uint64) {
 		plan := &kernel.Plan{Prop: "C12", Seed: kernel.Mix(seed, uint64(i)), Swarm: map[string]int64{
 			"chunk": []int64{0, 0, 1, 3}[r.Intn(4)], "part": int64(1 + r.Intn(2)), "colseed": int64(r.Uint32()), "mysql": int64(r.Intn(3) / 2), "depeof": int64(r.Intn(2))}}
 		n := 2 + r.Intn(6)
+		if r.Intn(400) == 0 {
+			// rarely: MySQL payloads around the 16 MiB packet boundary (multi-packet payloads), whole deliveries
+			plan.Swarm["mysql"], plan.Swarm["part"], plan.Swarm["chunk"], plan.Swarm["big"] = 1, 1, 0, 1
+			n = 1
+		}
 		for j := 0; j < n; j++ {
 			plan.Ops = append(plan.Ops, kernel.Op{ID: j + 1, Kind: "stmt", A: []int64{int64(r.Intn(6)), int64(r.Intn(len(c12Lens))), int64(r.Intn(2)), int64(r.Intn(4))}})
 		}
